@@ -21,6 +21,7 @@ TraceInit == /\ tid \in 1..Len(Traces) /\ l = 1
              /\ EInit([loaded |-> SetOf(C.loaded), tgt |-> C.tgt, mols |-> C.mols])
 TrAddEnd == IsOp("AddEnd") /\ AddEnd(Ev[l].sp)
 TrCalc == IsOp("CalcMaps") /\ CalcMaps
+TrCompare == IsOp("Compare") /\ Clause("comparative_file_written", Ev[l].written) /\ Compare(Ev[l].sp)
 TrExtra == /\ IsOp("Extrapolate")
            /\ Clause("error_iff_nothing_to_map_or_maps_missing", (Ev[l].outcome = "error") <=> ~Ready)
            /\ Clause("no_file_written_on_error", Ev[l].outcome = "error" => ~Ev[l].file)
@@ -46,7 +47,7 @@ TrClose == /\ IsOp("Close") /\ Clause("order_Close", phase = "writing")
            /\ phase' = "setup" /\ out' = "closed" /\ cursor' = Len(cfg.mols) + 1
            /\ UNCHANGED <<cfg, ends, maps, natoms, written, outcome>>
 TrException == IsOp("Exception") /\ Clause("no_exception", FALSE) /\ UNCHANGED evars
-TraceNext == TrAddEnd \/ TrCalc \/ TrExtra \/ TrMol \/ TrClose \/ TrException
+TraceNext == TrAddEnd \/ TrCalc \/ TrCompare \/ TrExtra \/ TrMol \/ TrClose \/ TrException
 TraceSpec == TraceInit /\ [][TraceNext]_<<evars, tid, l>>
 Accepted == (l = Len(Ev) + 1) => PrintT(<<"ACC", Traces[tid].tid>>)
 =============================================================================
